@@ -22,12 +22,7 @@ Theorem C04_reported_is_routed_partial :
   forall sched s c x,
     no_timeout sched = true -> exec sched init = Some s ->
     lookup c (chans s) = Some x -> c_sub x = true -> hub s c = Some (c_gen x).
-Proof.
-  intros sched s c x NT E L SX.
-  assert (I : Inv s) by (eapply exec_inv; eauto; apply Inv_init).
-  pose proof (i_chans _ _ _ _ _ _ _ _ I _ _ L) as P. rewrite SX in P. destruct P as [GL _].
-  eapply (i_live_hub _ _ _ _ _ _ _ _ I); eauto.
-Qed.
+Proof. exact reported_is_routed. Qed.
 Print Assumptions C04_reported_is_routed_partial.
 
 (* Once every started operation has finished: subscribed <-> routing entry, the
@@ -43,7 +38,7 @@ Print Assumptions C04_settled_partial.
 (* The routing invariant itself, for all schedules without the timeout label. *)
 Theorem C04_inv_partial :
   forall sched s, no_timeout sched = true -> exec sched init = Some s -> Inv s.
-Proof. intros. eapply exec_inv; eauto. apply Inv_init. Qed.
+Proof. exact exec_inv_init. Qed.
 Print Assumptions C04_inv_partial.
 
 (* With the timeout label the full statement fails on the model: a hub entry
@@ -54,10 +49,7 @@ Theorem C04_timeout_refuted :
   exists sched s,
     exec sched init = Some s /\ all_finished s = true /\
     hub s 0 = Some 2 /\ is_subscribed s 0 = false /\ delivered s 0 = 1.
-Proof.
-  destruct timeout_witness_breaks as (s & E & F & _ & H & _ & S & D).
-  exists timeout_witness, s. auto.
-Qed.
+Proof. exact timeout_refuted. Qed.
 Print Assumptions C04_timeout_refuted.
 
 (* Non-vacuity: a schedule with a stale unsubscribe racing a re-subscribe reaches a
@@ -65,7 +57,7 @@ Print Assumptions C04_timeout_refuted.
 Definition o_pj := mkOpts true true.
 Definition stale_unsub_schedule : list label :=
   [LSpawn OConnect] ++ rep 7 (LStep 0 true) ++
-  [LSpawn (OSubCli 0 o_pj)] ++ rep 12 (LStep 2 true) ++       (* generation 1 established *)
+  [LSpawn (OSubCli 0 o_pj)] ++ rep 11 (LStep 2 true) ++       (* generation 1 established *)
   [LSpawn (OUnsubCli 0); LStep 4 true] ++                     (* U1 snapshots generation 1 *)
   [LSpawn (OUnsubCli 0)] ++ rep 6 (LStep 6 true) ++           (* U2 removes generation 1 completely *)
   [LSpawn (OSubSrv 0 o_pj)] ++ rep 9 (LStep 8 true) ++        (* generation 2 established *)
